@@ -42,6 +42,7 @@ def cfg_text(c, emit=True, invs=INVS, prop=True):
              "  NIp = %d" % c.get("nip", 1), "  NDom = %d" % c.get("ndom", 1), "  NMac = %d" % c.get("nmac", 1),
              "  NKw = %d" % c.get("nkw", 1), "  NPat = %d" % c.get("npat", 1),
              "  NIp6 = %d" % c.get("nip6", 1), "  NAk = %d" % c.get("nak", 1), "  V6Set = %s" % bset(c.get("v6", [False])),
+             "  NoFqdnSet = %s" % bset(c.get("nofqdn", [False])), "  DnameSet = %s" % bset(c.get("dname", [False])),
              "  DelSet = %s" % sset(c.get("dels", ["space"])),
              "  MaxTok = %d" % c.get("tok", 1), "  MaxLines = %d" % c.get("lines", 1),
              "  MaxSpecs = %d" % c.get("specs", 1), "  TotLines = %d" % c.get("tot", c.get("lines", 1)),
@@ -68,6 +69,7 @@ def cfg_text(c, emit=True, invs=INVS, prop=True):
 
 EXEMPT = [[], ["ip", "mac"], ["hostname", "keyword", "password"]]
 EXEMPT4 = EXEMPT + [["hostname", "ip", "mac", "password"]]      # all but one (the machine-id spec minus ipv6)
+MACHINE_ID = ["hostname", "ip", "ipv6", "mac", "password"]      # the shipped machine_id declaration: everything but keyword
 CONFIGS = {
     # C08 ---------------------------------------------------------------------------------
     # every kind x every pair of delimiter classes x every switch vector, one token
@@ -76,6 +78,11 @@ CONFIGS = {
     "switch1": dict(dels=["edge", "punct"], obf=[True, False], host=[True, False], mac=[True, False],
                     kws=[[], [1]], pats=[[], [1]], regex=[False, True], sysdom=[True, False],
                     nored=[False, True], noobf=EXEMPT4),
+    # the machine-id declaration (no_redact, exempt from every obfuscator but keyword) and its neighbours, keywords
+    # configured, every switch vector; goes through the provider write paths like every C08 case
+    "machineid": dict(dels=["edge", "punct"], kinds=["kw", "text", "pw", "ip", "fqdn", "mac"], obf=[True, False],
+                      host=[True, False], mac=[True, False], kws=[[1]], pats=[[], [1]], nored=[True],
+                      noobf=[MACHINE_ID, EXEMPT4[3]]),
     # two tokens on one line (repeats, mixed kinds, prefix addresses), plain and regex patterns
     "pair": dict(dels=["space", "punct"], tok=2, nip=2, pats=[[], [1]], regex=[False, True],
                  fam=["plain", "prefix"]),
@@ -110,6 +117,9 @@ CONFIGS = {
     # a keyword inside a host name of the domain, two specs of which one exempts keywords
     "hist2kw": dict(kinds=["dom", "kw", "fqdn"], ndom=2, tok=2, lines=2, specs=2, tot=2, kws=[[1]],
                     noobf=[[], ["keyword"]], fam=["kwdom", "kwhost"]),
+    # the cleaner is built without an explicit fqdn (the OS answers with the declared name), display_name set / unset
+    "hist2own": dict(kinds=["ip", "short", "fqdn", "dom", "mac"], tok=2, lines=2, specs=1, tot=2, kws=[[]],
+                     nofqdn=[True], dname=[True, False], sysdom=[True, False]),
     # fixed-width mode: the same address twice on one line / on two lines
     "histw": dict(kinds=["ip"], nip=2, tok=2, lines=2, specs=2, tot=2, kws=[[]], width=[True], fam=["plain", "prefix"]),
     "hist3ip": dict(kinds=["ip"], nip=3, tok=2, lines=3, specs=3, tot=3, kws=[[]], fam=["plain", "collide", "prefix"]),
@@ -146,12 +156,12 @@ CONFIGS = {
 }
 
 PLAN = {
-    "C08": dict(quick=dict(emit=["tok1", "switch1", "pair", "pats3", "pairx", "pairc", "pairw"], model=["orders"], cap=8000, nconc=3,
+    "C08": dict(quick=dict(emit=["tok1", "switch1", "machineid", "pair", "pats3", "pairx", "pairc", "pairw"], model=["orders"], cap=8000, nconc=3,
                            paths=["content", "specprovider", "provider"]),
-                thorough=dict(emit=["tok1", "switch1", "pair", "pats3", "pairx", "pairc", "pairw", "triple", "triplep"], model=["orders"],
+                thorough=dict(emit=["tok1", "switch1", "machineid", "pair", "pats3", "pairx", "pairc", "pairw", "triple", "triplep"], model=["orders"],
                               cap=45000, nconc=6, paths=["content", "content", "file", "provider", "fileprovider", "specprovider"])),
-    "C09": dict(quick=dict(emit=["hist2", "hist2x", "histw", "hist3v6", "hist2v6", "hist2v6lb", "hist2kw"], model=[], cap=8000, nconc=2, paths=["content"], long=80),
-                thorough=dict(emit=["hist2", "hist2x", "histw", "hist3v6", "hist2v6", "hist2v6lb", "hist2kw", "hist3ip", "hist3host", "hist3mac"], model=[], cap=50000, long=600,
+    "C09": dict(quick=dict(emit=["hist2", "hist2x", "histw", "hist3v6", "hist2v6", "hist2v6lb", "hist2kw", "hist2own"], model=[], cap=8000, nconc=2, paths=["content"], long=80),
+                thorough=dict(emit=["hist2", "hist2x", "histw", "hist3v6", "hist2v6", "hist2v6lb", "hist2kw", "hist2own", "hist3ip", "hist3host", "hist3mac"], model=[], cap=50000, long=600,
                               nconc=3, paths=["content", "content", "provider", "file"])),
     "C10": dict(quick=dict(emit=["runs3", "runs2sp", "runsnone", "runsallow", "runsallow2", "runshosts"], model=["ordruns"], cap=800, seeds=16),
                 thorough=dict(emit=["runs3", "runs2sp", "runsnone", "runsallow", "runsallow2", "runsallow3", "runshosts", "runs2x2", "runs4"], model=["ordruns"], cap=5000, seeds=64)),
@@ -297,7 +307,7 @@ def long_cases(rng, n):
             m = rng.randint(3, 8)
             content.append(dict(sp=dict(nored=False, noobf=[], width=False, allow=0), lines=lines[:m]))
             lines = lines[m:]
-        cf = dict(obf=True, host=True, mac=True, v6="ip6" in kinds, kws=list(range(1, N + 1)) if "kw" in kinds else [], pats=[],
+        cf = dict(obf=True, host=True, mac=True, v6="ip6" in kinds, nofqdn=False, dname=False, kws=list(range(1, N + 1)) if "kw" in kinds else [], pats=[],
                   regex=False, sysdom=True, fam="plain")
         out.append(dict(id="long#%d" % i, cf=cf, ord=[], content=content))
     return out
@@ -327,7 +337,7 @@ def selftest_traces(traces, prop):
             continue
         if t["mode"] == "lines":
             for i, e in enumerate(t["events"]):
-                if e["ev"] == "line" and "leak" not in done:
+                if e["ev"] == "line" and "leak" not in done and prop != "C09":
                     js = [j for j, o in enumerate(e["obs"]) if o["st"] in ("sub", "other") and e["toks"][j]["k"] in ("kw", "pw")]
                     if js:
                         m = add(t, "leak", "NoLeak")
